@@ -93,7 +93,7 @@ class C04Machine(M.MCMachine):
         if self.c0 is None and self.counting:
             # first yield of this step: validate_simulation already ran
             self.c0 = self.atoms.calc.n_calculate - (0 if self.first_step_done else 1)
-        entry = self.scn["entries"][int(name[1:])]
+        entry = self.entry_expr(name)
         if any(l["t"] == "hmc" for l in S.expr_leaves(entry)):
             self.step_has_hmc = True
         return None
@@ -106,7 +106,7 @@ class C04Machine(M.MCMachine):
         if verdict is False:
             self.reject_seen = True
             self.labels.add("rejection:" + self.style)
-        entry = self.scn["entries"][int(name[1:])]
+        entry = self.entry_expr(name)
         where = f"after a {'accepted' if verdict else 'rejected' if verdict is False else 'failed'} trial of {name} ({self.scn['ensemble']}, calc={self.style})"
 
         def reported():
